@@ -20,6 +20,8 @@ NASTY = ['q"uote', "back\\slash", "tab\there", "new\nline", "nul\x00", "Ã©", "æ—
          # final line feed, so an "is it plain?" test lets these through (seeded change C08-13)
          # what os.walk delivers for a file name that is not valid UTF-8 (surrogateescape): lone surrogates
          "caf\udce9.py", "\udcff\udcfe", "dir\udc80",
+         # runs of ordinary spaces inside a name (seeded change C08-19: white space of the compact form squeezed, also inside strings)
+         "two  spaces", "My   Projects", "  lead2", "trail2  ",
          "\n", "plain\n", "plain\r", "plain\t", "\nlead", "x\n\n", "plain\x00", "tail\x0b", "tail\x0c", "tail\x85", "tail\u2028"]
 
 
